@@ -226,6 +226,9 @@ def classify(tname, src, probs):
     if tname.startswith('resolve_vector_notation') and probs[0][0] in ('reparse', 'gfortran') and \
             re.search(r'[(,]\s*:\s*[^,):\s]|[^,(:\s]\s*:\s*[,)]', low):
         return 'vector-notation-half-open-range'
+    if tname == 'normalize_array_shape_and_access' and probs[0][0] in ('reparse', 'gfortran') and \
+            re.search(r'\w\s*\([^()]*:[^(),]*:[^()]*\)', low):
+        return 'normalize-shape-drops-stride'
     return None
 
 
@@ -370,10 +373,10 @@ class C41(Prop):
     extra_obligations = ['oracle: scope chains, declared-or-imported, re-parse and gfortran syntax check after every registered transformation']
 
     def classes(self):
-        return ['sanitise-imports-drops-bare-use', 'sanitise-imports-module-spec', 'remove-unused-vars-loop-variable', 'vector-notation-half-open-range']
+        return ['sanitise-imports-drops-bare-use', 'sanitise-imports-module-spec', 'remove-unused-vars-loop-variable', 'vector-notation-half-open-range', 'normalize-shape-drops-stride']
 
     def gen(self, rng, tier):
-        rounds = {'quick': 1, 'thorough': 12, 'search': 3}.get(tier, 1)
+        rounds = {'quick': 1, 'thorough': 8, 'search': 3}.get(tier, 1)
         gf_every = {'quick': 6, 'thorough': 1, 'search': 2}.get(tier, 6)
         k = 0
         for _ in range(rounds):
